@@ -197,6 +197,12 @@ def _scc_label(tm, prog, scc):
     members = [prog.by_id[x] for x in scc]
     if roles.token_next and roles.token_next.id in scc:
         return 'tokenizer-lookahead'
+    tn = getattr(roles, 'tok_name', None)
+    if tn and roles.token_next and all(m.arg_count >= 1 and tn in m.locals[1]['ty'] for m in members if not m.is_closure) \
+            and any(m.id in tm.prog.reach([roles.token_next.id]) for m in members):
+        # the scanner proper was split off the bookkeeping wrapper (`next` = save prev/cur + `scan_token`): the cycle
+        # scan -> name -> look-ahead -> scan is the same recursion, one level below the role root
+        return 'tokenizer-lookahead'
     if any(m.id in {p.id for p in roles.parse_bodies} for m in members):
         return 'parser-descent'
     names = sorted(m.name for m in members)
